@@ -303,10 +303,39 @@ def g_wf(e, tail=True):
     if e[0] == "not":
         return g_wf(e[1], True) and (tail or g_simple(e[1]))
     if e[0] == "then":
-        return all(g_wf(c, tail and i == len(e[1]) - 1) for i, c in enumerate(e[1]))
+        multi = False
+        for i, c in enumerate(e[1]):
+            if not g_wf(c, tail and i == len(e[1]) - 1):
+                return False
+            if i > 0 and multi and not g_notsoronly(c):
+                return False
+            multi = multi or g_multiend(c)
+        return True
     if e[0] == "and" and not tail and not all(g_nothen(c) for c in e[1]):
         return False
     return all(g_wf(c, tail) for c in e[1])
+
+
+def g_multiend(e):
+    if e[0] == "and":
+        return True
+    if e[0] in ("or", "then"):
+        return any(g_multiend(c) for c in e[1])
+    return False
+
+
+def g_oronly(e):
+    if e[0] == "atom":
+        return True
+    return e[0] == "or" and all(g_oronly(c) for c in e[1])
+
+
+def g_notsoronly(e):
+    if e[0] == "atom":
+        return True
+    if e[0] == "not":
+        return g_oronly(e[1])
+    return all(g_notsoronly(c) for c in e[1])
 
 
 def g_nothen(e):
